@@ -1301,6 +1301,19 @@ static void struct_initializer2(Token **rest, Token *tok, Initializer *init, Mem
 }
 
 static void union_initializer(Token **rest, Token *tok, Initializer *init) {
+  // A union without members (a GNU extension) has nothing to initialize.
+  if (!init->ty->members) {
+    if (!equal(tok, "{"))
+      error_tok(tok, "invalid initializer");
+    tok = tok->next;
+    for (int i = 0; !consume_end(rest, tok); i++) {
+      if (i > 0)
+        tok = skip(tok, ",");
+      tok = skip_excess_element(tok);
+    }
+    return;
+  }
+
   // Unlike structs, union initializers take only one initializer,
   // and that initializes the first union member by default.
   // You can initialize other member using a designated initializer.
@@ -1487,6 +1500,8 @@ static Node *create_lvar_init(Initializer *init, Type *ty, InitDesg *desg, Token
 
   if (ty->kind == TY_UNION && !init->expr) {
     Member *mem = init->mem ? init->mem : ty->members;
+    if (!mem)
+      return new_node(ND_NULL_EXPR, tok);  // a union without members
     InitDesg desg2 = {desg, 0, mem};
     return create_lvar_init(init->children[mem->idx], mem->ty, &desg2, tok);
   }
